@@ -105,6 +105,18 @@ def check_step(P, S, a, S2, reward, last, ev):
     return out
 
 
+def _mask_respecting(ev):
+    """Was the action of step event `ev` offered by the mask the agent saw? (the statement of C06/C08 is about
+    mask-respecting play; the workload layer normally guarantees it, this is a second line of defence, e.g.
+    for deterministic policies facing an empty mask)."""
+    O0 = ev.O0
+    if O0 is None or "action_mask" not in O0:
+        return True
+    m = np.asarray(O0["action_mask"]).astype(bool)
+    a = int(ev.action)
+    return 0 <= a < len(m) and bool(m[a])
+
+
 def hard_constraints(P, trace):
     out = []
     B = P.params["budget"]
@@ -113,12 +125,18 @@ def hard_constraints(P, trace):
     if "n_seen" not in sh:
         sh.update(n_seen=1, items=[])
     for ev in trace[sh["n_seen"]:]:
+        if not _mask_respecting(ev):
+            sh["void"] = True
+        if sh.get("void"):
+            break
         a = int(ev.action)
         if a in sh["items"]:
             out.append(f"no_item_twice: item {a} packed twice")
         sh["items"].append(a)
         P.hit("item_packed")
     sh["n_seen"] = len(trace)
+    if sh.get("void"):
+        return []  # a masked-out action was played: outside the statement from here on
     S = trace[-1].S
     packed = S["packed_items"].astype(bool)
     w = float(np.sum(S["weights"].astype(np.float64)[packed]))
@@ -135,6 +153,8 @@ def hard_constraints(P, trace):
 
 
 def complete(P, trace):
+    if not all(_mask_respecting(e) for e in trace[1:]):
+        return None
     S = trace[-1].S
     P.hit("packing_maximal")
     fits = np.flatnonzero(legal(P, S, None))
@@ -144,6 +164,8 @@ def complete(P, trace):
 
 
 def objective(P, trace):
+    if not all(_mask_respecting(e) for e in trace[1:]):
+        return None
     S = trace[-1].S
     P.hit("packed_value")
     return float(np.sum(S["values"].astype(np.float64)[S["packed_items"].astype(bool)]))
